@@ -497,16 +497,20 @@ func writeReset() error {
 
 // Generated by /verif/cmd/instrument in a scratch copy; never part of /repo.
 
-var verifRegistrySnapshot = func() map[bool]map[CID]macPayloadInfo {
-	out := map[bool]map[CID]macPayloadInfo{}
+// (taken in an init function of this file, which the go tool hands to the
+// compiler last: after the package's own init functions have run - a registry
+// whose entries are completed by an init function is snapshotted complete)
+var verifRegistrySnapshot map[bool]map[CID]macPayloadInfo
+
+func init() {
+	verifRegistrySnapshot = map[bool]map[CID]macPayloadInfo{}
 	for dir, m := range macPayloadRegistry {
-		out[dir] = map[CID]macPayloadInfo{}
+		verifRegistrySnapshot[dir] = map[CID]macPayloadInfo{}
 		for k, v := range m {
-			out[dir][k] = v
+			verifRegistrySnapshot[dir][k] = v
 		}
 	}
-	return out
-}()
+}
 
 // VerifResetRegistry restores the MAC payload registry to its state at
 // process start (between simulated runs).
